@@ -8,6 +8,7 @@ import (
 	"path/filepath"
 	"runtime"
 	"sort"
+	"strconv"
 	"strings"
 	"sync"
 	"sync/atomic"
@@ -277,6 +278,12 @@ func waitCheckers(want int, d time.Duration) bool {
 		}
 		time.Sleep(300 * time.Microsecond)
 	}
+}
+
+// shardOf returns the shard index of this process (deterministic sweeps run in shard 0 only).
+func shardOf() int {
+	n, _ := strconv.Atoi(os.Getenv("VERIF_SHARD"))
+	return n
 }
 
 func allStacks() string {
